@@ -15,9 +15,10 @@ import (
 func init() {
 	register(&propDef{
 		id:      "C01",
-		explain: "Structural necessary conditions of 'requests are framed as RFC 9112 says or rejected': (R1) exhaustive path exploration of the request head field loop, in the mode the server parses in (special headers on) (the function reachable from RequestHeader.Read that compares field names with Content-Length and Transfer-Encoding): every accepting return (nil error) reached after both a Content-Length and a Transfer-Encoding field, or after a Transfer-Encoding field whose value did not match 'chunked', has connectionClose = true; a second Content-Length or Transfer-Encoding field, and a Transfer-Encoding on an HTTP/1.0 request, never reach an accepting return; every error return has connectionClose = true; (R2) in the serve loop the handler is only dispatched on paths where every head/body reader returned nil, and no iteration follows an error response; (R3) the chunk-size line scanner never skips a byte without having compared it with CR and LF, and every rejection in the chunk decoder returns a non-nil error; (R4) the functions the serve loop calls to read a request body report success without going through the framed-body reader only under a condition on the request's own framing (Expect: 100-continue deferral, declared length) - never on the method or on configuration alone, which would leave a declared body on the connection. (R6) in the request-head functions every comparison of a scanned field name with Content-Length or Transfer-Encoding goes through the case-insensitive comparator, never through an exact byte comparison - field names are case-insensitive on the wire whatever the normalisation setting. Not decided: that method/target/body equal the RFC's for the longest accepted prefix; obs-fold and bare-LF treatment in the head (C09).",
+		explain: "Structural necessary conditions of 'requests are framed as RFC 9112 says or rejected': (R1) exhaustive path exploration of the request head field loop, in the mode the server parses in (special headers on) (the function reachable from RequestHeader.Read that compares field names with Content-Length and Transfer-Encoding): every accepting return (nil error) reached after both a Content-Length and a Transfer-Encoding field, or after a Transfer-Encoding field whose value did not match 'chunked', has connectionClose = true; a second Content-Length or Transfer-Encoding field, and a Transfer-Encoding on an HTTP/1.0 request, never reach an accepting return; every error return has connectionClose = true; (R2) in the serve loop the handler is only dispatched on paths where every head/body reader returned nil, and no iteration follows an error response; (R3) the chunk-size line scanner never skips a byte without having compared it with CR and LF, and every rejection in the chunk decoder returns a non-nil error; (R4) the functions the serve loop calls to read a request body report success without going through the framed-body reader only under a condition on the request's own framing (Expect: 100-continue deferral, declared length) - never on the method or on configuration alone, which would leave a declared body on the connection. (R6) in the request-head functions every comparison of a scanned field name with Content-Length or Transfer-Encoding goes through the case-insensitive comparator, never through an exact byte comparison - field names are case-insensitive on the wire whatever the normalisation setting. (R7) the serve loop gives the connection reader back between requests only on paths that found it empty (br.Buffered() == 0) or an error - read-ahead bytes of the next request would be dropped with it. Not decided: that method/target/body equal the RFC's for the longest accepted prefix; obs-fold and bare-LF treatment in the head (C09).",
 		run: func(p *Prog, r *Report) {
 			runC01Head(p, r)
+			readerReleaseRule(p, r, "C01")
 			p.serveLoop("C01").report(r, "C01")
 			runC01Chunk(p, r)
 			runC01BodyDispatch(p, r)
